@@ -604,6 +604,8 @@ pub fn mutants(rng: &mut Rng, s: &str) -> Vec<(&'static str, String)> {
     out.push(("append_char", format!("{s}X")));
     out.push(("append_digit", format!("{s}7")));
     out.push(("append_space", format!("{s} ")));
+    out.push(("append_zeros", format!("{s}0000000000000000")));
+    out.push(("append_zeros_sep", format!("{s},0000000000000000")));
     out.push(("append_line", format!("{s}\nEXTRA")));
     out.push(("append_newline", format!("{s}\n")));
     out.push(("append_crlf_line", format!("{s}\r\nEXTRA")));
